@@ -1506,6 +1506,13 @@ def run(ctx):
     imported(ctx, C08.rule_B)
     imported(ctx, C08.rule_A)
     imported(ctx, C08.rule_X)
+    # remove_subtree decides "the subtree is the whole tree" by Tree equality (clades *and* outliers, C03.I1 / I2);
+    # every SMC pass is handed the data order drawn from the tree, which must contain every data point (C09.P1-P4)
+    from . import C03, C09
+
+    imported(ctx, C03.rule_I1)
+    imported(ctx, C03.rule_I2)
+    imported(ctx, C09.rule_P)
 
 
 # Self-test catalogue: one textual edit each, applied to a scratch copy (see selftest.py).
